@@ -1100,17 +1100,33 @@ class DomainMapping(CanBehaveLikeAVariable[T], ABC):
         if self._id_ in sources:
             yield sources
             return
+        is_condition = self._is_a_condition_
         child_val = self._child_._evaluate__(sources, yield_when_false=self._yield_when_false_)
         for child_v in child_val:
             for v in self._apply_mapping_(child_v[self._child_._id_]):
                 values = copy(child_v)
-                if (not self._invert_ and v.value) or (self._invert_ and not v.value):
+                if not is_condition:
+                    # a value (operand, selected expression, argument) is passed on whatever its truthiness.
+                    self._is_false_ = False
+                elif (not self._invert_ and v.value) or (self._invert_ and not v.value):
                     self._is_false_ = False
                 else:
                     self._is_false_ = True
                 if self._yield_when_false_ or not self._is_false_:
                     values[self._id_] = v
                     yield values
+
+    @property
+    def _is_a_condition_(self) -> bool:
+        """
+        Whether this mapping stands in condition position (its value is interpreted as a boolean).
+        """
+        parent = self._parent_
+        if isinstance(parent, (LogicalOperator, QueryObjectDescriptor)):
+            return True
+        if isinstance(parent, ForAll):
+            return parent.condition is self
+        return parent is None and self._invert_
 
     @abstractmethod
     def _apply_mapping_(self, value: HashedValue) -> Iterable[HashedValue]:
